@@ -34,21 +34,44 @@ Definition set_comp (idx : nat) (v : Z) (s : semver) : semver :=
   | _ => {| major := major s; minor := minor s; patch := v; valid := true |}
   end.
 
-(* the while (pos < size && idx < 3) loop; fuel = 3 - idx *)
+(* std::isspace / std::isalnum in the "C" locale *)
+Definition is_space (c : ascii) : bool :=
+  let n := nat_of_ascii c in
+  (Nat.eqb n 32 || Nat.eqb n 9 || Nat.eqb n 10 || Nat.eqb n 11 || Nat.eqb n 12 || Nat.eqb n 13)%bool.
+Definition is_alnum (c : ascii) : bool :=
+  let n := Z.of_nat (nat_of_ascii c) in
+  ((48 <=? n) && (n <=? 57)) || ((65 <=? n) && (n <=? 90)) || ((97 <=? n) && (n <=? 122)).
+Definition suffix_char (c : ascii) : bool :=
+  is_alnum c || Ascii.eqb c "."%char || Ascii.eqb c "-"%char || Ascii.eqb c "+"%char.
+
+(* isVersionSuffix: what may follow the numeric components - nothing, or '-'/'+' and suffix characters *)
+Definition tail_ok (rest : list ascii) : bool :=
+  match rest with
+  | [] => true
+  | c :: r => (Ascii.eqb c "-"%char || Ascii.eqb c "+"%char) && forallb suffix_char r
+  end.
+
+(* the while (idx < 3) loop; fuel = 3 - idx.  Anything that is not [v]MAJOR[.MINOR[.PATCH]][suffix] is sem0 *)
 Fixpoint parse_loop (fuel : nat) (idx : nat) (s : list ascii) (acc : semver) : semver :=
   match fuel with
   | O => acc
   | S f =>
     let (ds, rest) := span_digits s in
     match ds with
-    | [] => acc
+    | [] => sem0                             (* a component is expected here *)
     | _ =>
       match stoi ds with
-      | None => sem0                         (* repaired code: overflow => unparsable *)
+      | None => sem0                         (* overflow => unparsable *)
       | Some v =>
         let acc' := set_comp idx v acc in
         match rest with
-        | c :: rest' => if Ascii.eqb c "."%char then parse_loop f (S idx) rest' acc' else acc'
+        | c :: rest' =>
+          if Ascii.eqb c "."%char then
+            match f with
+            | O => sem0                      (* a fourth component *)
+            | S _ => parse_loop f (S idx) rest' acc'
+            end
+          else if tail_ok rest then acc' else sem0
         | [] => acc'
         end
       end
@@ -58,7 +81,12 @@ Fixpoint parse_loop (fuel : nat) (idx : nat) (s : list ascii) (acc : semver) : s
 Definition strip_v (s : list ascii) : list ascii :=
   match s with c :: r => if Ascii.eqb c "v"%char then r else s | [] => s end.
 
-Definition parse_semver (s : list ascii) : semver := parse_loop 3 0 (strip_v s) sem0.
+Fixpoint drop_spaces (s : list ascii) : list ascii :=
+  match s with c :: r => if is_space c then drop_spaces r else s | [] => [] end.
+(* trailing white space is dropped first *)
+Definition rstrip (s : list ascii) : list ascii := rev (drop_spaces (rev s)).
+
+Definition parse_semver (s : list ascii) : semver := parse_loop 3 0 (strip_v (rstrip s)) sem0.
 
 Definition cmp3 (a b : semver) : Z :=
   if negb (major a =? major b) then (if major a <? major b then -1 else 1)
@@ -91,10 +119,6 @@ Definition update_action (cur lat : list ascii) : action :=
     else if major c <? major l then PromptMajor else Install.
 
 (* ---- checksums.txt ---- *)
-Definition is_space (c : ascii) : bool :=
-  let n := nat_of_ascii c in
-  (Nat.eqb n 32 || Nat.eqb n 9 || Nat.eqb n 10 || Nat.eqb n 11 || Nat.eqb n 12 || Nat.eqb n 13)%bool.
-
 Fixpoint split_on (p : ascii -> bool) (s : list ascii) (cur : list ascii) : list (list ascii) :=
   match s with
   | [] => [rev cur]
@@ -136,6 +160,21 @@ Fixpoint find_checksum (ls : list (list ascii)) (asset : list ascii) : option (l
 Definition parse_checksum (content asset : list ascii) : option (list ascii) :=
   find_checksum (lines content) asset.
 
+(* checksumVerdict: what --update does with a downloaded archive whose SHA-256 is [actual] (lower-case hex), given
+   the text of checksums.txt (None: it could not be downloaded) *)
+Inductive verdict := Verified | NoChecksums | NoEntry | Mismatch.
+Definition lower (c : ascii) : ascii :=
+  let n := nat_of_ascii c in if (Nat.leb 65 n && Nat.leb n 90)%bool then ascii_of_nat (n + 32) else c.
+Definition checksum_verdict (content : option (list ascii)) (asset actual : list ascii) : verdict :=
+  match content with
+  | None => NoChecksums
+  | Some c =>
+    match parse_checksum c asset with
+    | None => NoEntry
+    | Some h => if ascii_list_eqb (map lower h) actual then Verified else Mismatch
+    end
+  end.
+
 (* ---- notice throttling (checkForUpdatesIfDue) ---- *)
 Definition WINDOW : Z := 72 * 3600.
 
@@ -158,6 +197,7 @@ Definition maybe_notice (latest cur : list ascii) (now : Z) (c : cache) : bool *
 Record invocation := {
   now : Z;
   skip_env : bool;                    (* BLOCH_NO_UPDATE_CHECK / CI / BLOCH_OFFLINE set *)
+  writable : bool;                    (* saveCache succeeds *)
   curv : list ascii;                  (* running version *)
   fetch : option (list ascii)         (* what the release lookup would return *)
 }.
@@ -165,6 +205,9 @@ Record invocation := {
 (* on-disk cache: None = missing/unreadable.  Returns (notices printed, disk') *)
 Definition check_for_updates (disk : option cache) (i : invocation) : list Z * option cache :=
   if skip_env i then ([], disk) else
+  (* a cache that cannot be written: maybePrintNotice stores the time before it prints, so nothing is printed and
+     nothing changes on disk *)
+  if negb (writable i) then ([], disk) else
   let c0 := match disk with Some c => c | None => {| latestV := []; lastChecked := 0; lastNotified := 0 |} end in
   match disk with
   | Some _ =>
